@@ -53,6 +53,10 @@ def check(ctx: Ctx):
     ctx.functions |= sub_ro.functions
     col.check_instance_containers(ctx, ("EmulsionTimeCourse", "DropletTrack"), rule="OWN")
     col.check_weighted_mean(ctx)
+    col.check_bbox_union(ctx)
+    from ..rules import collections as _colx
+
+    _colx.check_list_appends(ctx)
     ctx.expect("EFFECT", 1)
     ctx.expect("GUARDSHAPE", 1)
     col.check_order_free(ctx)
@@ -60,7 +64,7 @@ def check(ctx: Ctx):
     col.check_self_alias_iteration(ctx)
     col.check_statistics(ctx)
     col.check_trajectory_axis(ctx)
-    ctx.expect("STAT", 8)
+    ctx.expect("STAT", 9)
     ctx.expect("COPYALL", 2)
     # merging members in place (out aliases the first operand) equals the out-of-place merge
     from . import c11
